@@ -56,7 +56,12 @@ pub fn combinations(n: u64, k: u64) -> f64 {
 /// assert_relative_eq!(combinations_with_repl(5, 3), 35., epsilon = f64::EPSILON);
 /// ```
 pub fn combinations_with_repl(n: u64, k: u64) -> f64 {
-    combinations(n + k - 1, k)
+    if k == 0 {
+        // the empty multiset (also from zero elements, where n + k - 1 would underflow)
+        1.0
+    } else {
+        combinations(n + k - 1, k)
+    }
 }
 
 #[cfg(test)]
